@@ -199,6 +199,6 @@ Proof.
   apply to_items_significant in Et. rewrite <- Et.
   assert (H : rewrites c (item_toks its) (significant (of_items out tr)))
     by now rewrite significant_of_items.
-  destruct (split_groups 0 None out) as [gs0 cur]. destruct cur; [exact H|].
+  destruct (chunks 0 [] out) as [gs0 rest0]. destruct rest0; [|exact H].
   rewrite Hs. exact H.
 Qed.
